@@ -134,6 +134,19 @@ def _mat_max(interp, self: Mat, args, kwargs):
 @lib("numpy.allclose", "numpy.isclose")
 def np_allclose(interp, args, kwargs):
     a, b = args[0], args[1]
+    if isinstance(a, Vec) and isinstance(b, (Num, Bool)) and conc(a.length) is not None and conc(a.length) <= 8:
+        # np.allclose(v, c): every |v_k - c| <= atol + rtol |c|   (empty -> True)
+        ctx = interp.ctx
+        rtol = as_real(to_num(kwargs.get("rtol", lift(1e-5))))
+        atol = as_real(to_num(kwargs.get("atol", lift(1e-8))))
+        y = as_real(to_num(b))
+        ay = z3.If(y >= 0, y, -y)
+        cs = []
+        for k in range(conc(a.length)):
+            x = as_real(to_num(vget(ctx, a, k)))
+            d = z3.If(x - y >= 0, x - y, y - x)
+            cs.append(d <= atol + rtol * ay)
+        return Bool(z3.And(*cs) if cs else z3.BoolVal(True))
     if isinstance(a, Num) and isinstance(b, Num):
         rtol = as_real(to_num(kwargs.get("rtol", lift(1e-5))))
         atol = as_real(to_num(kwargs.get("atol", lift(1e-8))))
